@@ -17,13 +17,18 @@ import (
 // one domain spanning both index domains or in two domains mirroring them. Returns the data DB, the timestamps and
 // the data bytes (one byte per sample).
 func verifDataChannelDB(s int) (*DB, []telem.TimeStamp, []byte) {
+	return verifDataChannelDBN(s, 2)
+}
+
+// verifDataChannelDBN is verifDataChannelDB with k contiguous index domains.
+func verifDataChannelDBN(s, k int) (*DB, []telem.TimeStamp, []byte) {
 	var (
 		ispecs []domain.VerifDomainSpec
 		all    []telem.TimeStamp
 		counts []int
 		prev   = telem.TimeStamp(-1)
 	)
-	for i := 0; i < 2; i++ {
+	for i := 0; i < k; i++ {
 		n := verifLen("samples", 1, s)
 		start := telem.TimeStamp(verifInt64("i.start"))
 		if i == 0 {
@@ -45,11 +50,12 @@ func verifDataChannelDB(s int) (*DB, []telem.TimeStamp, []byte) {
 	bytesAll := verifBytes("data", len(all))
 	var dspecs []domain.VerifDomainSpec
 	if verifBool("data-merged") {
-		dspecs = []domain.VerifDomainSpec{{Start: ispecs[0].Start, End: ispecs[1].End, Data: bytesAll}}
+		dspecs = []domain.VerifDomainSpec{{Start: ispecs[0].Start, End: ispecs[k-1].End, Data: bytesAll}}
 	} else {
-		dspecs = []domain.VerifDomainSpec{
-			{Start: ispecs[0].Start, End: ispecs[0].End, Data: bytesAll[:counts[0]]},
-			{Start: ispecs[1].Start, End: ispecs[1].End, Data: bytesAll[counts[0]:]},
+		off := 0
+		for i := 0; i < k; i++ {
+			dspecs = append(dspecs, domain.VerifDomainSpec{Start: ispecs[i].Start, End: ispecs[i].End, Data: bytesAll[off : off+counts[i]]})
+			off += counts[i]
 		}
 	}
 	ddb := domain.VerifBuildDB(dspecs)
@@ -87,7 +93,17 @@ func verifHDataExactly(got []byte, all []telem.TimeStamp, data []byte, view tele
 // VerifC01DataRead: reading any range of a data channel returns exactly the bytes of the samples whose index
 // timestamps lie in the range, also when the index is split into more domains than the data.
 func VerifC01DataRead() {
-	db, all, data := verifDataChannelDB(verifParam("samples", 2))
+	verifDataRead(verifParam("samples", 2), 2)
+}
+
+// VerifC01DataReadRolled: the same with an index that rolled over twice (three contiguous index domains) under
+// one data domain, so that read bounds can fall on the boundary between two later index domains.
+func VerifC01DataReadRolled() {
+	verifDataRead(verifParam("samples", 1), 3)
+}
+
+func verifDataRead(samples, idomains int) {
+	db, all, data := verifDataChannelDBN(samples, idomains)
 	tr := telem.TimeRange{Start: telem.TimeStamp(verifInt64("tr.start")), End: telem.TimeStamp(verifInt64("tr.end"))}
 	verifAssume(tr.Start >= 0 && tr.Start < tr.End)
 	fr, err := db.Read(context.Background(), tr)
